@@ -811,6 +811,9 @@ func runSeqCheck(spec *SeqSpec, tier string, rep *Report) {
 			for _, or := range r.Res {
 				op := run[or.Op]
 				transitions++
+				if transitions%1511 == 1 && or.Status == "ok" {
+					rep.sample(opTrace(spec, r.Task, op))
+				}
 				if or.Shape != "" {
 					shapes[or.Shape]++
 				}
